@@ -14,6 +14,7 @@ from vf import instrument as I
 from vf.gen import rng_for
 
 ID = "C17"
+TECHNIQUE = 'runtime monitoring: post-conditions on the frames produced by the real hourly data classes (whole local days, measured values kept, filled cells flagged, nothing left missing) over gap/duplicate/DST patterns'
 LEVEL = "exploration"
 NEEDS_NUMBA = False
 CASE_TIMEOUT = 1800
